@@ -641,6 +641,10 @@ class Shadow:
         self.order = []
         self.insts = []      # (classname, key)
         self.cache = {}
+        self.stats = {}      # which flavor branches / shapes the accepted declarations exercised
+
+    def stat(self, k):
+        self.stats[k] = self.stats.get(k, 0) + 1
 
     def parent(self, ln):
         s = self.cls[ln].get('sup')
@@ -683,8 +687,12 @@ class Shadow:
             iq = inherited.get(q['n'].lower())
             if iq is not None and iq['ts'] and not iq['ov']:
                 either = True       # non-overridable qualifier repeated with the same value
+            if iq is not None:
+                self.stat('flavor:redeclared ts=%s ov=%s' % (iq['ts'], iq['ov']))
             out[q['n'].lower()] = {'n': q['n'], 'v': q['v'], 'p': False, 'p_either': either, 'ts': ts, 'ov': ov}
         for ln, iq in inherited.items():
+            if ln not in out:
+                self.stat('flavor:not-redeclared ts=%s ov=%s' % (iq['ts'], iq['ov']))
             if iq['ts'] and ln not in out:
                 out[ln] = dict(iq, p=True, p_either=False)
         return out
@@ -722,6 +730,10 @@ class Shadow:
                                          q={k2: dict(q, p=True, p_either=False) for k2, q in p['q'].items() if q['ts']})
                                  for k, p in pe['ps'].items()})
                     r[kind][eln] = x
+        depth = len(self.ancestors(ln))
+        self.stat('exposed:depth=%d' % depth)
+        self.stat('exposed:overriding-elements=%d' % min(sum(1 for k in ('props', 'meths')
+                                                             for x in r[k].values() if x['own'] and x['overrides']), 4))
         self.cache[ln] = r
         return r
 
@@ -904,6 +916,7 @@ def oracle(run, decls, ops, outs, final_names, final_insts, toklist, case):
             elif ok:
                 f = op['f']
                 ln = op['n'].lower()
+                run.count('flags:lo=%s iq=%s ico=%s pl=%s' % (f['lo'], f['iq'], f['ico'], f['pl'] is not None))
                 k = out['ok']['cls']
                 if f['lo'] is False and f['iq'] is not False and f['ico'] is True and f['pl'] is None:
                     check_full_class(run, sh, ln, k, case, tokens)
@@ -971,6 +984,8 @@ def oracle(run, decls, ops, outs, final_names, final_insts, toklist, case):
             if got != exp or got2 != exp:
                 run.violate({'kind': 'instances_differ_from_subtree', 'missing': len(exp) > len(got)}, case,
                             {'expected': exp, 'names': got, 'instances': got2})
+    for k, v in sh.stats.items():
+        run.count(k, v)
     # final state: exactly the classes / instances the client's successful requests leave
     got = sorted(fcps(n).lower() for n in final_names)
     if got != sorted(sh.cls):
@@ -1064,9 +1079,20 @@ def judge(run, decls, ops, outs, names, insts, toklist):
     return case
 
 
+def _thin(run, keep=25):
+    """bounded memory: beyond `keep` violations per signature only the signature is kept"""
+    seen = {}
+    for v in run.violations:
+        k = json.dumps(v['sig'], sort_keys=True, default=str)
+        seen[k] = seen.get(k, 0) + 1
+        if seen[k] > keep and v.get('case') is not None:
+            v['case'] = None
+            v['observed'] = None
+
+
 def run(run):
     rng = run.rng
-    n = 30000 if run.thorough else 2500
+    n = 20000 if run.thorough else 2500
     run.rule = ('seeded random histories on one namespace: 14 qualifier declarations (flavors of 6 of them drawn from '
                 '{True,False,None}^2), 2..9 (thorough ..12) classes in forests of depth<=5 / fan-out<=4 created by CreateClass or '
                 'add_cimobjects in accepted and non-accepted orders, overriding / new / renamed-override properties and methods, '
@@ -1081,27 +1107,37 @@ def run(run):
                         'qualifier declarations carry all 8 scope keys (as the MOF compiler produces them)',
                         'qualifier values other than strings are compared as opaque tokens (type, repr)']
     seeds = [(rng.getrandbits(48), run.thorough) for _ in range(n)]
-    results = common.pmap(_work, seeds, chunksize=16)
-    answers = common.run_driver(PROP, [r[2] for r in results])
-    for (decls, ops, req, outs, names, insts, toklist), ans in zip(results, answers):
-        case = {'decls': decls, 'ops': ops}
-        nontrivial = False
-        for op, out in zip(ops, outs):
-            run.count('op:%s:%s' % (op['op'], out.get('exc', 'ok') + str(out.get('code', ''))))
-            if op['op'] in ('create', 'add', 'modify') and 'ok' in out and op['c'].get('sup') and \
-                    any(q['n'].lower() == 'override' for e in op['c']['props'] + op['c']['meths'] for q in e.get('q', [])):
-                nontrivial = True
-        run.case(case, nontrivial=nontrivial)
-        real_outs = [strip_aux(o) for o in outs]
-        if ans.get('outs') != real_outs or ans.get('classes') != names or ans.get('insts') != insts:
-            idx = next((i for i, (a, b) in enumerate(zip(ans.get('outs', []), real_outs)) if a != b), None)
-            run.disagree(case, {'first_diff_op': idx, 'out': ans.get('outs', [None])[idx] if idx is not None else None,
-                                'classes': ans.get('classes')},
-                         {'out': real_outs[idx] if idx is not None else None, 'classes': names},
-                         'class-resolution history')
-        oracle(run, decls, ops, outs, names, insts, toklist, case)
+    BATCH = 2500        # bounded memory: generate+run, model, compare, judge, discard
+    for b in range(0, n, BATCH):
+        results = common.pmap(_work, seeds[b:b + BATCH], chunksize=16)
+        answers = common.run_driver(PROP, [r[2] for r in results])
+        for (decls, ops, req, outs, names, insts, toklist), ans in zip(results, answers):
+            case = {'decls': decls, 'ops': ops}
+            nontrivial = False
+            for op, out in zip(ops, outs):
+                run.count('op:%s:%s' % (op['op'], out.get('exc', 'ok') + str(out.get('code', ''))))
+                if op['op'] in ('create', 'add', 'modify') and 'ok' in out and op['c'].get('sup') and \
+                        any(q['n'].lower() == 'override' for e in op['c']['props'] + op['c']['meths']
+                            for q in e.get('q', [])):
+                    nontrivial = True
+            run.count('classes-at-end:%d' % min(len(names), 9))
+            run.case(case, nontrivial=nontrivial)
+            real_outs = [strip_aux(o) for o in outs]
+            if ans.get('outs') != real_outs or ans.get('classes') != names or ans.get('insts') != insts:
+                idx = next((i for i, (a, b_) in enumerate(zip(ans.get('outs', []), real_outs)) if a != b_), None)
+                if len(run.disagreements) < 20:
+                    run.disagree(case, {'first_diff_op': idx,
+                                        'out': ans.get('outs', [None])[idx] if idx is not None else None,
+                                        'classes': ans.get('classes')},
+                                 {'out': real_outs[idx] if idx is not None else None, 'classes': names},
+                                 'class-resolution history')
+                else:
+                    run.disagreements.append({'what': 'class-resolution history (details dropped)'})
+            oracle(run, decls, ops, outs, names, insts, toklist, case)
+        del results, answers
+        _thin(run)
     # MOF compilation path: same forests through the MOF compiler (real code only)
-    nm = 600 if run.thorough else 60
+    nm = 400 if run.thorough else 60
     mres = common.pmap(mof_case, [rng.getrandbits(48) for _ in range(nm)], chunksize=4)
     for r in mres:
         if r is None:
